@@ -437,6 +437,14 @@ PROPS['C01'] = dict(
              require=['c01.accounted_cases', 'lifecycle.cases', 'c01.released_with_request_pending']),
         dict(name='pipelab-requests', bin='pipelab', variant='asan', mode='c12',
              args=['--burst', '0'], quick=60000, thorough=1500000, leak_check=True),
+        # the core buffer API under the same memory oracles (AddressSanitizer,
+        # LeakSanitizer at exit): segment structures and shared areas of block
+        # buffers are refcounted objects too, and the histories of the C03 lab
+        # (append / insert / delete / truncate / splice / split / merge on
+        # segmented blocks, 8 manager configurations) free and recycle them
+        dict(name='core-block', bin='block', variant='asan', mode='c03',
+             quick=100000, thorough=2000000, leak_check=True,
+             require=['battery.on_3plus_segments']),
         # bursts of registrations overflowing the 255-slot out-of-band queue of a
         # queue sink (known finding: the request whose UNREGISTER message is
         # dropped is leaked); kept apart so that it cannot mask another leak
